@@ -198,6 +198,13 @@ func writeEvidence(prop, tier string, seed uint64, meta PropMeta, agg WorkerSumm
 		"stubbed_components":  meta.Stub,
 		"distinct_measure":    "distinct behaviour signatures (see rule) among non-trivial runs, unioned over workers",
 	}
+	if len(agg.Unfinished) > 0 {
+		// not judged by the final oracle (the invariants checked during the run were)
+		if len(agg.Unfinished) > 8 {
+			agg.Unfinished = agg.Unfinished[:8]
+		}
+		cov["unfinished_runs"] = agg.Unfinished
+	}
 	if meta.Exhaustive != "" {
 		cov["exhaustive"] = true
 		cov["exhaustive_dimension"] = meta.Exhaustive
